@@ -22,7 +22,7 @@ CHECKS = {
             'DESIGN.md 4/C02'),
     'C03': ('exploration',
             'bounded-exhaustive enumeration of UTXO multisets x output lists x strategies x fee rates on the real ledger/database under the virtual loop, judged by an independent fee/feasibility reference',
-            'Every UTXO multiset up to a size bound over branch-derived amounts, every output-list shape, every coin-selection strategy: conservation, fee bounds, change placement, reservation cleanliness and per-strategy feasibility judged by brute force.',
+            'Every UTXO multiset up to a size bound over branch-derived amounts, every output-list shape, every coin-selection strategy: conservation, fee bounds, change placement, reservation cleanliness and per-strategy feasibility judged by brute force; multi-step histories on one ledger (confirm/reorg/re-save by sync/fee change between builds), two builds at once, multi-byte claim names and four funding-transaction layouts.',
             'Default schedule only (single build; concurrency is C14); gap 2/2 accounts; sqlite :memory: trusted.',
             'DESIGN.md 4/C03'),
     'C04': ('exploration',
@@ -32,7 +32,7 @@ CHECKS = {
             'DESIGN.md 4/C04'),
     'C05': ('exploration',
             'bounded-exhaustive enumeration over compact-size/push/integer boundary alphabets, differential against an independent Bitcoin transaction codec',
-            'Full product on reduced alphabets plus one-factor sweeps on full ones; parse(serialise) identity, byte identity with the reference encoder, txid rule for legacy and (synthetic) segwit.',
+            'Full product on reduced alphabets plus one-factor sweeps on full ones; parse(serialise) identity, byte identity with the reference encoder, txid rule for legacy and segwit (incl. the published BIP143 example); every edit history of length <= 3/4 on one Transaction and on chains of live transactions (re-entrant serialisation).',
             'No real segwit main-net transaction offline: segwit inputs are produced by the reference encoder.',
             'DESIGN.md 4/C05'),
     'C06': ('exploration',
@@ -47,7 +47,7 @@ CHECKS = {
             'DESIGN.md 4/C07'),
     'C08': ('exploration',
             'bounded-exhaustive enumeration of all blocks of 1..N transactions, every index and every single mutation of the genuine proof, against an independent Merkle reference',
-            'Every (block size, index) genuine proof accepted with the right position; every single mutation of branch/position/length/tx/height judged by folding with an independent Merkle implementation.',
+            'Every (block size, index) genuine proof accepted with the right position; every single mutation of branch/position/length/tx/height judged by folding with an independent Merkle implementation; enforced re-verification histories on one Transaction object, a cache/reorg family and 102 schedules of a reorg relative to in-flight server replies.',
             'Synthetic headers (PoW not involved in this property).',
             'DESIGN.md 4/C08'),
     'C09': ('model_checking',
@@ -57,7 +57,7 @@ CHECKS = {
             'DESIGN.md 4/C09'),
     'C10': ('model_checking',
             'exhaustive enumeration of TCP re-chunkings (every subset of cut points) and of a hostile-peer catalogue at every message position, on the real client/server protocols over an in-memory pipe under a virtual loop',
-            'Honest pairs must complete under every re-chunking; against every catalogue misbehaviour at every position the blob must never be verified or left on disk and the connection must close within the configured timeouts.',
+            'Honest pairs must complete under every re-chunking; against every catalogue misbehaviour at every position the blob must never be verified or left on disk and the connection must close within the configured timeouts; pairings D/E race an honest and a lying peer for one blob (two request_blob calls; the real BlobDownloader).',
             'In-memory pipe models ordered lossless byte streams; no flow-control pauses.',
             'DESIGN.md 4/C10'),
     'C11': ('model_checking',
@@ -67,42 +67,42 @@ CHECKS = {
             'DESIGN.md 4/C11'),
     'C12': ('model_checking',
             'deviation-bounded stateless DFS over datagram delivery orders/duplication/loss on networks of real Nodes over an in-memory UDP fabric under a virtual loop; enumerated join orders, announcers, hostile-node subsets',
-            'Hit guarantee on loss-free honest networks of 2..40 nodes (all orders within the deviation bound for small n), expiry at 24 h, paging for every N=1..100; termination/validity with every subset of silent/garbage/hostile nodes.',
+            'Hit guarantee on loss-free honest networks of 2..40 nodes (all orders within the deviation bound for small n), expiry at 24 h, paging for every N=1..100; termination/validity with every subset of silent/garbage/hostile nodes; both lookup entry points (finder, accumulate_peers), re-announcement histories of up to three announcers on a 48 h timeline, the real BlobAnnouncer loop, announcer ports across 32768.',
             'Delay never exceeds the RPC timeout in the hit half (otherwise indistinguishable from loss).',
             'DESIGN.md 4/C12'),
     'C13': ('model_checking',
             'explicit-state BFS over encrypt/lock/unlock/decrypt/save/reload histories of the real Wallet + exhaustive crash-point enumeration (every op-log prefix x every torn write) of WalletStorage.write over a recording file system',
-            'Every history to a depth bound over account-set and password alphabets; secrets restored exactly, wrong password refused without change, no plaintext secret on disk; every crash image of a save reads back as complete old or complete new wallet.',
+            'Every history to a depth bound over account-set and password alphabets; secrets restored exactly, wrong password refused without change, no plaintext secret on disk; every crash image of a save reads back as a complete version that is neither newer than the save in progress nor older than the durable low-water mark; account-set changes in every lock state; stale temp files carried across saves; a reference-AES search drives the wrong-password-valid-padding branch.',
             'POSIX ordered-journal crash model (rename atomic, unsynced data may persist as any prefix).',
             'DESIGN.md 4/C13'),
     'C14': ('model_checking',
             'exhaustive schedule enumeration (stateless DFS over DB-job completion order and task start order) of N concurrent Transaction.create on the real ledger/database under a virtual loop',
-            'All interleavings of 2-4 concurrent builds (bounded deviation for more), every strategy: held inputs pairwise disjoint in every state, reservation flags match holders, everything released at the end.',
+            'All interleavings of 2-4 concurrent builds (bounded deviation for more), every strategy: held inputs pairwise disjoint in every state, reservation flags match holders, everything released at the end; cancellation, late arrivals, multi-round builds, a concurrent sync task re-saving funding transactions, two funding accounts, confirmation states and funding layouts are in the alphabet.',
             'Iteration-granular atomicity of executor jobs; sqlite trusted.',
             'DESIGN.md 4/C14'),
     'C15': ('exploration',
             'bounded-exhaustive enumeration of templates x boundary values and of all short byte strings over the template opcode alphabet, against an independent script tokenizer/classifier',
-            'Every template with every push-boundary length round-trips with minimal pushes; every short opcode string and every 1-byte edit of generated scripts is classified exactly as the reference opcode-pattern classifier says.',
+            'Every template with every push-boundary length round-trips with minimal pushes; every short opcode string and every 1-byte edit of generated scripts is classified exactly as the reference opcode-pattern classifier says, whatever was asked of the same or another object before (query histories, regenerate/re-parse stability).',
             'Multisig redeem scripts excluded as the property says.',
             'DESIGN.md 4/C15'),
     'C16': ('exploration',
             'bounded-exhaustive enumeration of claim field assignments (all enum values, boundary integers, repeated items) and of URLs generated from the grammar plus single-defect negatives, against plain protobuf parsing',
-            'Round trip through bytes, accessor values vs. what was set and vs. a plain protobuf parse; legacy fixtures; URL parse/print identity and rejection of every forbidden string.',
+            'Round trip through bytes, accessor values vs. what was set and vs. a plain protobuf parse; legacy fixtures; URL parse/print identity and rejection of every forbidden string; edit-after-parse histories, aliasing across live objects, hostile legacy documents.',
             'Pure-Python protobuf implementation.',
             'DESIGN.md 4/C16'),
     'C17': ('exploration',
             'bounded-exhaustive enumeration of protocol messages (codec) and of every truncation / 1-3 byte mutation / nesting bomb of valid datagrams fed to the real KademliaProtocol handler, against an independent strict bencode + schema classifier',
-            'Codec round trip and independent decode of every message shape; for every malformed datagram the handler must not raise, must record a failure, and must leave routing table and data store unchanged.',
+            'Codec round trip and independent decode of every message shape; for every malformed datagram the handler must not raise, must record a failure, and must leave routing table and data store unchanged; sequences of 2-4 datagrams to one live protocol judged per datagram against the state before it; UTF-8/size-bound families.',
             'Fake transport; mutation alphabet of 9 structural bytes.',
             'DESIGN.md 4/C17'),
     'C18': ('model_checking',
             'explicit-state BFS over blob completion/publish/delete/behind-the-back/restart histories with a crash at every executor-job boundary, on the real BlobManager + SQLiteStorage (file db) under a virtual loop',
-            'Every history to a depth bound, with a crash injected at every choice point of the last operation; after each restart completed set, files and database rows must agree as the property states.',
+            'Every history to a depth bound, with a crash injected at every choice point of the last operation; after each restart completed set, files and database rows must agree as the property states; save_blobs configurations, same-object restarts, unfinished downloads, oversized and symlinked files.',
             'sqlite own crash consistency trusted; crash = remaining executor jobs never run.',
             'DESIGN.md 4/C18'),
     'C19': ('exploration',
             'bounded-exhaustive enumeration of blob mixes x limits x repeated passes on the real DiskSpaceManager/SQLiteStorage/BlobManager',
-            'Every mix of own/downloaded/network blobs over a size alphabet, every limit relative to usage, up to three passes: nothing deleted within limits, own blobs never deleted, removal order and whole-megabyte minimality.',
+            'Every mix of own/downloaded/network blobs over a size alphabet, every limit relative to usage, up to three passes: nothing deleted within limits, own blobs never deleted, removal order and whole-megabyte minimality; pending rows, bookkeeping histories before cleanup, the periodic cleaning_loop entry point, real publications, sizes separating 10^6 from 2^20.',
             'Sparse files stand in for blob contents.',
             'DESIGN.md 4/C19'),
     'C20': ('exploration',
